@@ -68,9 +68,10 @@ def main():
                                    for a, b, c in sigs]})
                 if ck.returncode == 1:
                     rcs.append(1)
-            if rcs:
-                seeds = ""
-            for s in [x for x in seeds.split(",") if x]:
+            # (decided by the neighbouring check: the own check is skipped
+            # for THIS change only)
+            own_seeds = "" if rcs else seeds
+            for s in [x for x in own_seeds.split(",") if x]:
                 e2 = dict(os.environ, VERIF_REPO=w, VERIF_SEED=s,
                           VERIF_MAX_REPORTS="2", VERIF_NO_EVIDENCE="1")
                 t0 = time.time()
@@ -107,7 +108,7 @@ def main():
                     "check_cmd": f"VERIF_REPO=<scratch worktree with "
                                  f"patch.diff applied> bin/check {prop}",
                     "check": caught,
-                    "caught": all(r == 1 for r in rcs),
+                    "caught": bool(rcs) and all(r == 1 for r in rcs),
                 },
             }
             json.dump(meta, open(os.path.join(d, "meta.json"), "w"), indent=1)
